@@ -114,6 +114,10 @@ const (
 	// A database of another lineage lies at <data dir>/recovery.db (left by another release, copied
 	// with the directory ...): main file with one foreign tag, with or without a WAL file holding another.
 	voTamperForeignRecoveryDB
+	// Something that cannot be cleared away lies where the temporary database of a recovery goes
+	// (a non-empty directory <data dir>/recovery.db): a recovery attempted now ends without success
+	// at its first fallible step, before it has changed anything. The operator clears it afterwards.
+	voTamperObstacle
 	voTamperN
 )
 
@@ -1600,6 +1604,10 @@ func (w *voWorld) tamper(kind int) bool {
 		w.interruptedRecovery()
 		return true
 	}
+	if kind == voTamperObstacle {
+		w.obstacle(true)
+		return true
+	}
 	if kind == voTamperForeignRecoveryDB {
 		w.foreignRecoveryDB(w.choose(verifName("foreign-recovery-db-without-wal-", w.round), 2) == 1)
 		return true
@@ -1786,6 +1794,27 @@ func (w *voWorld) interruptedRecovery() {
 }
 
 // foreignRecoveryDB: see voTamperForeignRecoveryDB. The node is down.
+// obstacle: see voTamperObstacle; put in place / cleared away by the operator while the node is down.
+func (w *voWorld) obstacle(present bool) {
+	tmp := w.recoveryDBPath()
+	if verifSymbolic() {
+		if present {
+			voOsMkdirAll(filepath.Join(tmp, "x"), 0755)
+		} else {
+			delete(w.nodes, filepath.Join(tmp, "x"))
+			delete(w.nodes, tmp)
+		}
+		return
+	}
+	if present {
+		if err := os.MkdirAll(filepath.Join(tmp, "x"), 0755); err != nil {
+			panic(err)
+		}
+	} else if err := os.RemoveAll(tmp); err != nil {
+		panic(err)
+	}
+}
+
 func (w *voWorld) foreignRecoveryDB(withoutWAL bool) {
 	tmp := w.recoveryDBPath()
 	if verifSymbolic() {
